@@ -666,7 +666,8 @@ def postConfChange (r : Raft) : Res (Raft × ConfState) :=
   let cs := r.prs.conf.toConfState
   let isVoter := Joint.contains r.prs.voters r.id
   let r := { r with promotable := isVoter }
-  if !isVoter && r.state == .leader then .ok (r, cs)
+  -- a leader that is no longer a voter steps down (fix F14)
+  if !isVoter && r.state == .leader then .ok (r.becomeFollower r.term 0, cs)
   else if r.state ≠ .leader ∨ cs.voters.isEmpty then .ok (r, cs)
   else
     let r1 : Res Raft :=
